@@ -280,7 +280,9 @@ add(
     "The multi-core error path (single-end and paired faults) also runs under the schedule-owning simulator (deadlock = "
     "no runnable task); gzip inputs far larger than any read-ahead buffer are truncated so that the reader meets the "
     "fault after chunks were handed out; paired faults are also run on FASTA input. Real-process runs send the reads "
-    "to a file or to standard output and require an error line on stderr besides the start-up lines.",
+    "to a file or to standard output and require an error line on stderr besides the start-up lines. A further fault class "
+    "overwrites 1-8 bytes inside the compressed stream of a gzip input (invalid stream or checksum mismatch, judged by "
+    "zlib): non-zero exit, a message, termination and whole records in any partial output are required, with 1-3 cores.",
     "Faults are enumerated completely per generated input; inputs, schedules and real-process runs are sampled. "
     "'Never hangs' is decided exactly in the simulator and by a generous time bound for real runs.",
     "DESIGN.md sections 3.5 and 4, C12",
